@@ -112,13 +112,14 @@ Section J1.
   Hypothesis parseF_32 : forall b, (b < 2 ^ 32)%N -> classify_float true b <> FNaN -> parseF 2 (float_text fmtF true b) = Some b.
 
   Local Notation DecJ := (decJ e wc ps_empty ignore parseF).
+  Local Notation DecM f := (djmix e wc ps_empty ignore parseF f).   (* the recursive calls of one step (Ror2NoPanic.decJ_unfold) *)
   Local Notation Enc := (enc e wc ps_empty).
   Local Notation J := (to_jdoc fmtF).
   Local Notation typed := (typed e).
   Local Notation expect := (expect parseF e wc ignore).
   Local Notation expect_body := (expect_body parseF e wc ignore).
   Local Notation merge := (merge parseF e wc ignore).
-  Local Notation UmfJ f := (umfJ e (DecJ f)).
+  Local Notation UmfJ f := (umfJ e (DecM f)).
 
   Lemma J_leaf l : J (DLeaf l) = jleaf fmtF l.
   Proof. reflexivity. Qed.
@@ -377,7 +378,7 @@ Section J1.
     elemJ (DecJ f false t') (expect v f t') d.
   Proof. intros H Hp Ht [sc He] Hs tr. apply (H sc t' v d Hp Ht He f false tr Hs). left. reflexivity. Qed.
 
-  Lemma fillS_eq f fs vs : fill_defaultsS (DecJ f) fs vs = fill_ parseF e wc ignore f fs vs.
+  Lemma fillS_eq f fs vs : fill_defaultsS (DecM f) fs vs = fill_ parseF e wc ignore f fs vs.
   Proof. revert vs. induction fs as [|fd fs IH]; intros [|ov vs]; cbn [fill_defaultsS fill_]; try reflexivity; rewrite IH; reflexivity. Qed.
 
   Hypothesis Hwf : wf_env e.
@@ -417,7 +418,7 @@ Section J1.
     rewrite enc_arr in He. destruct (mapM _ l) as [ds| |] eqn:Em; try discriminate. cbn [bind] in He. injection He as <-.
     apply mapM_Forall2 in Em.
     rewrite decJ_unfold. cbn [stepJ]. rewrite J_arr, expect_arr.
-    rewrite (goJarr_ok (DecJ f) t' (map (fun x => expect x f t') l) ds); [reflexivity|].
+    rewrite (goJarr_ok (DecM f) t' (map (fun x => expect x f t') l) ds); [reflexivity|].
     apply Forall2_map_l. eapply Forall2_impl_in; [|exact Em]. intros a b Hin Hab. cbv beta in Hab.
     apply (RTJ_elem fe); [exact HRT | exact Hp | rewrite Forall_forall in Hall; apply Hall, Hin | eexists; exact Hab |].
     pose proof (list_sum_in (fun x => S (vsize x)) l a Hin). cbv beta in *. lia.
@@ -434,7 +435,7 @@ Section J1.
     set (gsz := fun kv : bytes * value => let '(_, x) := kv in S (vsize x)) in *.
     rewrite decJ_unfold. cbn [stepJ]. rewrite J_obj, expect_map.
     set (X := fun x => expect x f t').
-    rewrite (goJmap_ok (DecJ f) t' (map (map_val X) (sort_entries es)) (sort_entries ents)).
+    rewrite (goJmap_ok (DecM f) t' (map (map_val X) (sort_entries es)) (sort_entries ents)).
     - cbn [app]. rewrite sort_entries_map, sort_entries_idem; [reflexivity|]. rewrite map_val_keys. exact Hnd.
     - apply Forall2_map_l. eapply Forall2_impl_in; [|exact Eg]. intros [k x] [k' d'] Hin [Hk Hab]. cbn [fst snd] in *.
       split; [exact Hk|]. cbn [map_val snd].
@@ -467,8 +468,8 @@ Section J1.
       { pose proof (list_sum_in (osize vsize) _ _ (nth_error_In _ _ Hvx)) as A. cbn [osize] in A. lia. }
       assert (Hi : index_of alias (map fst ms) 0 = Some j).
       { rewrite (index_of_nth _ Hnd j alias 0); [reflexivity|]. rewrite (map_nth_error fst j ms Hn). reflexivity. }
-      rewrite (goJuni_cons (DecJ f) ms alias (J d) [] _ tr j alias mt (J_nonnull d) Hi Hn).
-      rewrite (HRT _ mt x d Hpm Htx Hed f false _ Hsz (or_introl eq_refl)).
+      rewrite (goJuni_cons (DecM f) ms alias (J d) [] _ tr j alias mt (J_nonnull d) Hi Hn).
+      rewrite djmix_false, (HRT _ mt x d Hpm Htx Hed f false _ Hsz (or_introl eq_refl)).
       cbn [bind goJuni]. rewrite pop_push. rewrite andb_false_r.
       rewrite (expect_union_set parseF e wc ignore f ms j (alias, mt) x Hn). reflexivity.
   Qed.
@@ -486,7 +487,7 @@ Section J1.
     destruct (Forall2_perm _ _ _ (Permutation_sym Hp) _ HF) as (sl & Hps & HFs).
     assert (Hsub : forall key ty x, In (key, (ty, x)) sl -> In (key, (ty, x)) (slots e K n (VRec vi vf))).
     { intros. eapply Permutation_in; [apply Permutation_sym, Hps | assumption]. }
-    assert (Hok : Forall2 (entry_rel (slotJ (DecJ f) f)) sl ents).
+    assert (Hok : Forall2 (entry_rel (slotJ (DecM f) f)) sl ents).
     { eapply Forall2_impl_in; [|exact HFs]. intros [key [ty x]] [kd dd] Hin [Hk (fe' & sc & Hle & Hee)]. cbn [fst snd] in *.
       split; [exact Hk|]. unfold slotJ; cbn [fst snd]. apply Hsub in Hin.
       destruct (slots_typed _ _ _ _ K n _ Ht Hin) as [Htx (m & mi & mf & fd0 & Hlm & Hfd & Hty)].
@@ -496,7 +497,7 @@ Section J1.
       apply (RTJ_elem fe'); [apply HRT, Hle | exact Hpt | exact Htx | exists sc; exact Hee | lia]. }
     assert (Hz : zok e K n (zero_value e (S K) (TRef n))) by (apply zero_value_zok; [lia | exact Hc]).
     rewrite decJ_unfold. cbn [stepJ]. rewrite Hl, J_obj. cbn [bind]. rewrite <- EK.
-    rewrite (goJrec_ok (DecJ f) f K n _ (VRec vi vf) EK Hc Hz Ht Hnd sl ents Hok Hsub [] _ _ tr
+    rewrite (goJrec_ok (DecM f) f K n _ (VRec vi vf) EK Hc Hz Ht Hnd sl ents Hok Hsub [] _ _ tr
                (eq_sym (merge_nil parseF e wc ignore f K n _ _ Hc Hz Ht))).
     cbn [bind].
     rewrite remove_all.
